@@ -147,9 +147,73 @@ static void p0_run(uint64_t idx, vh_rng_t * rng) {
     if (na > 1 && vh_want_sample()) vh_sample("A = \"%s\"; B = \"%s\" -> B's trace identical on fresh and used context (%zu bytes of trace)", vh_esc(all.p, all.len), vh_esc(B.p, B.len), alone.len);
 }
 
+/* ---- phase 1: unit-level isolation inside one message -------------------------------------------------------
+ * "X;U" on a fresh context must behave like "X" and "U" sent as two messages (U written with an absolute header):
+ * same handler/parameter/error events, and the response is the two responses joined by ';' under one terminator. */
+static void strip_flush_lines(const vh_buf_t * log, vh_buf_t * into) {
+    const char * p = log->len ? log->p : ""; size_t left = log->len;
+    while (left) { const char * e = memchr(p, '\n', left); size_t n = e ? (size_t) (e - p) + 1 : left; if (p[0] != 'F' && p[0] != 'S') vh_buf_add(into, p, n); p += n; left -= n; }
+}
+static uint64_t p1_count(int thorough) {
+#if VH_ASAN
+    return vh_scaled(thorough ? 500000 : 50000);
+#else
+    return vh_scaled(thorough ? 3000000 : 200000);
+#endif
+}
+static void p1_run(uint64_t idx, vh_rng_t * rng) {
+    static vh_buf_t X, U, m1, ev1, ev2, out2, expect;
+    int fx = 0, fu = 0; vh_ctx_t * v; size_t le = strlen(SCPI_LINE_ENDING), rx, ru; char key[128];
+    (void) idx;
+    if (!sigs[0].nsteps) init_sigs();
+    vh_buf_reset(&X); vh_buf_reset(&U); vh_buf_reset(&m1); vh_buf_reset(&ev1); vh_buf_reset(&ev2); vh_buf_reset(&out2); vh_buf_reset(&expect);
+    gen_unit(rng, &X, &fx);
+    if (vh_chance(rng, 1, 3)) { vh_buf_addc(&X, ';'); gen_unit(rng, &X, &fx); } /* X may itself be two units */
+    gen_unit(rng, &U, &fu);
+    if (U.len == 0 || (U.p[0] != '*' && U.p[0] != ':')) { vh_buf_t t = { 0, 0, 0 }; vh_buf_addc(&t, ':'); vh_buf_add(&t, U.p, U.len); vh_buf_reset(&U); vh_buf_add(&U, t.p, t.len); vh_buf_free(&t); }
+    vh_buf_add(&m1, X.p, X.len); vh_buf_addc(&m1, ';'); vh_buf_add(&m1, U.p, U.len); vh_buf_addc(&m1, '\n');
+    vh_case_desc("units X = \"%s\" and U = \"%s\"", vh_esc(X.p, X.len), vh_esc(U.p, U.len));
+    /* one message */
+    v = vh_ctx_new(cmds, 512, 64, 1024); v->sigs = sigs; v->nsigs = NSIG;
+    vh_input(v, m1.p, m1.len);
+    strip_flush_lines(&v->log, &ev1);
+    /* two messages */
+    {
+        vh_ctx_t * w = vh_ctx_new(cmds, 512, 64, 1024); vh_buf_t t = { 0, 0, 0 };
+        w->sigs = sigs; w->nsigs = NSIG;
+        vh_buf_add(&t, X.p, X.len); vh_buf_addc(&t, '\n'); vh_input(w, t.p, t.len);
+        strip_flush_lines(&w->log, &ev2); rx = w->out.len; vh_buf_add(&out2, w->out.p, w->out.len);
+        vh_ctx_clear_capture(w);
+        vh_buf_reset(&t); vh_buf_add(&t, U.p, U.len); vh_buf_addc(&t, '\n'); vh_input(w, t.p, t.len);
+        strip_flush_lines(&w->log, &ev2); ru = w->out.len;
+        /* expected joined response */
+        if (rx >= le) vh_buf_add(&expect, out2.p, rx - le);
+        if (rx >= le && ru >= le) vh_buf_addc(&expect, ';');
+        if (ru >= le) vh_buf_add(&expect, w->out.p, ru - le);
+        if (rx >= le || ru >= le) vh_buf_adds(&expect, SCPI_LINE_ENDING);
+        vh_buf_free(&t); vh_ctx_free(w);
+    }
+    vh_eval(2);
+    if (ev1.len != ev2.len || (ev1.len && memcmp(ev1.p, ev2.p, ev1.len) != 0)) {
+        snprintf(key, sizeof key, "C09:unit-trace-differs:%s", (fx & 4) ? "after-unit-with-unfinished-block" : (fx & 2) ? "after-failing-unit" : "after-succeeding-unit");
+        vh_violation(key, "\"%s\" as one message -> events [%s]; as two messages -> [%s]", vh_esc(m1.p, m1.len), vh_esc(ev1.p, ev1.len), vh_esc(ev2.p, ev2.len));
+    } else if (v->out.len != expect.len || (expect.len && memcmp(v->out.p, expect.p, expect.len) != 0)) {
+        snprintf(key, sizeof key, "C09:unit-output-differs:%s", (fx & 4) ? "after-unit-with-unfinished-block" : (fx & 2) ? "after-failing-unit" : "after-succeeding-unit");
+        vh_violation(key, "\"%s\" wrote \"%s\"; the same units as two messages join to \"%s\"", vh_esc(m1.p, m1.len), vh_esc(v->out.p, v->out.len), vh_esc(expect.p, expect.len));
+    }
+    vh_ctx_free(v);
+    vh_count("unitpairs", 1);
+    if (fx & 2) vh_count("unit.X_raises_errors", 1);
+    if (fx & 4) vh_count("unit.X_leaves_block_unfinished", 1);
+    if ((fx & 4) && (fu & 32)) vh_count("unit.block_data_without_header_after_unfinished_block", 1);
+    if ((fx & 2) && (fu & 2)) vh_count("unit.both_units_raise_errors", 1);
+    vh_distinct(vh_hash(m1.p, m1.len, 12));
+}
+
 int main(int argc, char ** argv) {
-    static const vh_phase_t phases[] = { { "pairs", p0_count, p0_run } };
+    static const vh_phase_t phases[] = { { "pairs", p0_count, p0_run }, { "units within one message", p1_count, p1_run } };
+    vh_require("unit.X_raises_errors"); vh_require("unit.block_data_without_header_after_unfinished_block"); vh_require("unit.both_units_raise_errors");
     vh_require("A.sequence_of_messages"); vh_require("A.raises_errors"); vh_require("A.leaves_block_unfinished_or_overlong"); vh_require("A.ends_with_compound_path");
     vh_require("A.overrun_with_pending_bytes"); vh_require("B.uses_relative_header"); vh_require("B.responds"); vh_require("A.responds"); vh_require("B.block_data_without_header_after_unfinished_block");
-    return vh_main(argc, argv, "C09", phases, 1);
+    return vh_main(argc, argv, "C09", phases, 2);
 }
